@@ -200,7 +200,9 @@ Inv(f) == LET q == FScale(LDiv(ROne, LMul(R(10), n)), FSub(f, C))
 E(rec) == IF DoEmit /\ (EmitSel = 0 \/ (EmitSel = 1 /\ ~pol) \/ (EmitSel = 2 /\ pol)) THEN EmitEdge(rec) ELSE TRUE
 
 \* frame conditions every call is replayed under (notes/CALL_DISCIPLINE.md); listed in every emitted record
-FrameQ == {"ArgumentsUnchanged", "EarlierResultsUnchanged", "QueryIsPure", "AnyDtypeSameValue"}
+FrameQ == {"ArgumentsUnchanged", "EarlierResultsUnchanged", "QueryIsPure", "AnyDtypeSameValue",
+           "AnyShapeElementwise",      \* an array query is element-wise: row / column / matrix / broadcast wall vector, same elements
+           "AnyScalarTypeSameValue"}   \* a scalar distance as int, numpy scalar or 0-d array is the same distance
 FrameS(o) == IF o = "raise" THEN {"RejectedChangesNothing"} ELSE {}
 SetRec(op, arg, o) == [kind |-> "set", op |-> op, arg |-> arg, out |-> o, pre |-> P, post |-> PN, frame |-> FrameS(o)]
 
@@ -293,6 +295,9 @@ QPLdBArr(i) ==
   /\ Live /\ Exact /\ ~Random /\ ArrDecided(ArrSets[i]) /\ UNCHANGED vars
   /\ E([kind |-> "q", op |-> "PLdBArr", ks |-> ArrSets[i].ks,
         ws |-> IF Model = "metis" THEN ArrSets[i].ws ELSE <<>>, exp |-> ArrOutcome(ArrSets[i]), pre |-> P, post |-> P,
+        \* one wall count for all distances (>= 0): the query may equally be issued with that SCALAR count
+        scalarw |-> IF Model = "metis" /\ \A j \in 1..Len(ArrSets[i].ws) : ArrSets[i].ws[j] = ArrSets[i].ws[1]
+                      THEN ArrSets[i].ws[1] ELSE -1,
         frame |-> FrameQ])
 
 \* plot_deterministic_path_loss_in_dB(d, ax): draws the DETERMINISTIC loss (shadowing is switched off inside the
@@ -346,9 +351,13 @@ QRel ==
         dets |-> IF Exact THEN [w \in WallsOf \ {-1} |-> [k \in Ks |-> Det(k, w)]] ELSE <<>>, kmin |-> KMin,
         slope |-> [w \in WallsOf \ {-1} |-> Slope(w)],
         lc |-> LargeCity,
+        \* "DocValue": the value of the documented formula for the CURRENT rational parameters, evaluated by the harness in
+        \* floating point - in every state, also off the logarithm-exact lattice (Okumura-Hata defaults, hbs # 100) (rel)
         req |-> IF Random THEN {"InUnitEveryDraw", "PolicyEveryDraw", "NoiseBounded", "ShadowingIsOn"}
-                ELSE {"Monotone", "LinearIsDb", "InUnit", "PolicyArrayScalar", "QueryPure"}
-                       \cup (IF InvOffered THEN {"InverseId"} ELSE {})])
+                               \cup (IF InvOffered THEN {"InverseIgnoresShadow"} ELSE {})
+                ELSE {"Monotone", "LinearIsDb", "InUnit", "PolicyArrayScalar", "QueryPure", "DocValue"}
+                       \cup (IF InvOffered THEN {"InverseId"} ELSE {})
+                       \cup (IF Model = "freespace" /\ n = R(2) THEN {"FriisClose"} ELSE {})])
 
 Next == \/ \E i \in 1..Len(InitArgs) : Construct(i)
         \/ \E b \in BOOLEAN : SetPol(b)
